@@ -59,6 +59,44 @@ def _is_plain_ones(repo, fi, du, e, at):
     return (isinstance(v, ast.Call) and call_name(v) == "ones"), v
 
 
+def _count_field(du, arg, at, depth=0):
+    """(metadata key, index) that a channel-count expression reads: int(md["snsMnMaXaDw"][3]), np.sum(md[...][3]), or a name unpacked
+    from the whole field (n_mn, n_ma, n_xa, n_dw = (int(n) for n in md["snsMnMaXaDw"]))."""
+    if depth > 5 or arg is None:
+        return None
+    if isinstance(arg, ast.Call) and call_name(arg) in ("int", "sum", "float") and arg.args:
+        return _count_field(du, arg.args[0], at, depth + 1)
+    if isinstance(arg, ast.Subscript):
+        ok, k = const_value(arg.slice)
+        base = arg.value
+        if ok and isinstance(k, int):
+            if isinstance(base, ast.Subscript) and isinstance(base.slice, ast.Constant) and isinstance(base.slice.value, str):
+                return (base.slice.value, k)
+            if isinstance(base, ast.Call) and call_name(base) == "get" and base.args and isinstance(base.args[0], ast.Constant):
+                return (base.args[0].value, k)
+            if isinstance(base, ast.Name):
+                v = expand_name(du, base, at)
+                if v is not base:
+                    return _count_field(du, ast.Subscript(value=v, slice=arg.slice, ctx=ast.Load()), at, depth + 1)
+    if isinstance(arg, ast.Name):
+        ds = du.strong_reaching(arg.id, at)
+        if len(ds) == 1:
+            d = ds[0]
+            if d.kind == "unpack" and d.unpack_index is not None and d.value is not None:
+                v = d.value
+                if isinstance(v, (ast.GeneratorExp, ast.ListComp)):
+                    v = v.generators[0].iter
+                if isinstance(v, ast.Call) and call_name(v) in ("map", "tuple", "list") and v.args:
+                    v = v.args[-1]
+                if isinstance(v, ast.Subscript) and isinstance(v.slice, ast.Constant) and isinstance(v.slice.value, str):
+                    return (v.slice.value, d.unpack_index)
+                if isinstance(v, ast.Call) and call_name(v) == "get" and v.args and isinstance(v.args[0], ast.Constant):
+                    return (v.args[0].value, d.unpack_index)
+            if d.kind == "assign" and d.value is not None:
+                return _count_field(du, d.value, d.stmt, depth + 1)
+    return None
+
+
 def d1_sync_gain(ctx, rule_id="D1"):
     ctx.rule(rule_id, "each conversion vector ends with np.ones(<sync count>) (sync unscaled, last); analog count = nSavedChans - nsync")
     repo = ctx.repo
@@ -77,11 +115,11 @@ def d1_sync_gain(ctx, rule_id="D1"):
             ok, lv = _is_plain_ones(repo, fi, du, last, d)
             cnt_ok = False
             if ok:
-                cnt = src(lv.args[0]) if lv.args else ""
+                cf = _count_field(du, lv.args[0], d) if lv.args else None
                 if key == "nidq":
-                    cnt_ok = "snsMnMaXaDw" in cnt and re.search(r"\[\s*(3|-1)\s*\]", cnt) is not None
+                    cnt_ok = cf in (("snsMnMaXaDw", 3), ("snsMnMaXaDw", -1))
                 else:
-                    cnt_ok = "snsApLfSy" in cnt and re.search(r"\[\s*(2|-1)\s*\]", cnt) is not None
+                    cnt_ok = cf in (("snsApLfSy", 2), ("snsApLfSy", -1))
             ctx.check(ok and cnt_ok, fi, v, f"{key}: last segment {src(last)[:60]}",
                       f"'{key}' vector ends with an all-ones sync segment sized by the metadata sync count",
                       f"'{key}' vector's last segment is `{src(lv)[:80]}`: the sync channel(s) would be scaled or mis-sized",
@@ -205,6 +243,44 @@ def d2_ap_lf(ctx):
                   f"`{src(r)}` is not <imAiRangeMax|niAiRangeMax for the right device> / _get_max_int_from_meta(md)", key=f"int2volt:{'imec' if imec else 'nidq'}")
     if n < 2:
         raise AnchorMissing("int2volts: expected two range/max-int returns")
+
+
+def d8_nidq_segments(ctx):
+    ctx.rule("D8", "nidq vector = [MN: int2volt/niMNGain, MA: int2volt/niMAGain, XA: int2volt, DW: 1], segment i sized by snsMnMaXaDw[i]")
+    repo = ctx.repo
+    fi = repo.fn(FN)
+    du = DefUse(fi.node)
+    vals = _dict_values_for_key(fi.node, "nidq")
+    if not vals:
+        raise AnchorMissing(f"{FN}: nidq branch not found")
+    d, v = vals[0]
+    parts = _stack_parts(expand_name(du, v, d))
+    if parts is None:
+        raise AnalysisError(f"{FN}: nidq vector is not a stack of segments")
+    I = Poly.sym("I")
+
+    class E(Evaluator):
+        def ev(self, e):
+            if isinstance(e, ast.Subscript) and isinstance(e.slice, ast.Constant) and isinstance(e.slice.value, str) and e.slice.value.startswith("ni"):
+                return Poly.sym(e.slice.value)
+            if isinstance(e, ast.Call) and call_name(e) == "get" and e.args and isinstance(e.args[0], ast.Constant) and str(e.args[0].value).startswith("ni"):
+                return Poly.sym(e.args[0].value)
+            return super().ev(e)
+    want = [("MN", I * Poly.sym("niMNGain").pow(-1)), ("MA", I * Poly.sym("niMAGain").pow(-1)), ("XA", I), ("DW", Poly.const(1))]
+    ctx.check(len(parts) == 4, fi, v, f"{len(parts)} segments", "four channel categories in SpikeGLX order (MN, MA, XA, DW)", f"nidq vector has {len(parts)} segments, expected 4", key="nidq:count")
+    for i, part in enumerate(parts[:4]):
+        name, w = want[i]
+        ev = E(env={"int2volt": I}, resolve=lambda e: repo.resolve_expr(fi, e))
+        try:
+            p = ev.ev(part)
+        except Undecided as e:
+            raise AnalysisError(f"{FN}: nidq segment {name} not evaluable: {e}")
+        ones = [c for c in find(part, ast.Call) if call_name(c) == "ones"]
+        cf = _count_field(du, ones[0].args[0], d) if ones and ones[0].args else None
+        ctx.check(p == w, fi, part, f"{name}: {p}", f"{name} channels convert with {w}",
+                  f"nidq segment {i} ({name}) converts with {p} (I = int2volt); expected {w}: those channels are scaled with the wrong gain field", key=f"nidq:gain:{name}")
+        ctx.check(cf in (("snsMnMaXaDw", i), ("snsMnMaXaDw", i - 4)), fi, part, f"{name}: count from {cf}", f"{name} segment has snsMnMaXaDw[{i}] entries",
+                  f"nidq segment {i} ({name}) is sized by {cf}, expected snsMnMaXaDw[{i}]", key=f"nidq:count:{name}")
 
 
 def d3_reader_writer(ctx):
@@ -396,3 +472,4 @@ def run(ctx):
     ctx.run(d5_maxint)
     ctx.run(d6_sync_indices)
     ctx.run(d7_type_fs)
+    ctx.run(d8_nidq_segments)
